@@ -26,14 +26,22 @@ class Locked:
         self.f.close()
 
 
-def regen(repo='/repo'):
-    """Regenerate lean/SFModel/Gen from the current source. Returns list of translation errors."""
+# translators run before every build: (tool, properties whose check treats its TRANSLATION-ERRORs as broken obligations;
+# None = every property).  Every tool runs on every check run, so that lean/SFModel/Gen is always that of the current source.
+TRANSLATORS = (('py2lean.py', None), ('py2lean_dtype.py', None), ('py2lean_window.py', ('C13',)),
+               ('py2lean_targets.py', ('C14',)), ('py2lean_locmap.py', ('C02', 'C04', 'C05')))
+
+
+def regen(repo='/repo', prop=None):
+    """Regenerate lean/SFModel/Gen from the current source. Returns list of translation errors (of the translators that
+    serve `prop`; all of them when `prop` is None)."""
     errs = []
-    for tool in ('py2lean.py', 'py2lean_dtype.py'):
+    for tool, props in TRANSLATORS:
         path = os.path.join(VERIF, 'tools', tool)
         if os.path.exists(path):
             p = subprocess.run([sys.executable, path, '--repo', repo], capture_output=True, text=True)
-            errs += [l for l in p.stdout.splitlines() if 'TRANSLATION-ERROR' in l]
+            if props is None or prop is None or prop in props:
+                errs += [l for l in p.stdout.splitlines() if 'TRANSLATION-ERROR' in l]
     return errs
 
 
